@@ -200,3 +200,87 @@ Theorem c09_merge_tie_rule : forall files most T r s,
     forall j g s', (j < i)%nat -> nth_error visit j = Some g -> nth_error (p_tab g) r = Some s' -> s_n s' < s_n s.
 Proof. exact merge_tie_rule. Qed.
 Print Assumptions c09_merge_tie_rule.
+
+Definition c09_pf (path : Z) (rows : list Z) : pfile :=
+  mk_pfile path [[(10, [0]); (20, [1])]] [(10, 0%nat); (20, 1%nat)] [100]
+           (map (fun n => mk_summary n [n] [n] [n] [0] [n]) rows).
+Example c09_merge_nonvacuous :
+  NoDup (map p_path [c09_pf 3 [5; 1]; c09_pf 1 [2; 7]; c09_pf 2 [5; 7]]) /\
+  exists most T,
+    merge_precompute [c09_pf 3 [5; 1]; c09_pf 1 [2; 7]; c09_pf 2 [5; 7]] = Ok (most, T) /\
+    p_path most = 2 /\ map s_n T = [5; 7].
+Proof.
+  split; [repeat constructor; cbn; intuition discriminate|].
+  eexists. eexists. split; [vm_compute; reflexivity|]. split; reflexivity.
+Qed.
+
+(* ------------------------------------------------------------------ *)
+(* truncation.
+   FULL STATEMENT (c09_truncation, not proved in this form):
+     if `data` is the table written for the taxonomy `old_tree` over the cells `cells`, and
+     truncate ng old_tree new_hier old_c2r data = Ok (new_tree, new_c2r, T), then
+     (new_c2r, T) is what `precompute` writes for `new_tree` over the same cells.
+   PROVED (c09_truncation_partial): the table-level half, for every new_hier (dropping the
+   leaf level, inner levels, several levels):  with lvl = the deepest old level kept,
+     - lvl = old leaf level: row map and table unchanged;
+     - otherwise: the new row map lists the new tree's leaves against 0..n-1, and the row of
+       EVERY new leaf L is stats_of_rows of all cells sitting in the rows of those old leaves
+       whose ancestor at level lvl IN THE OLD TREE is L (zero if none) - by additivity.
+   MISSING for the full statement: that the ancestor relation of the old tree is the parent
+   structure of new_tree (nodes (leaf_level new_tree) = the nodes of old level lvl, each with
+   the union of its descendants' cells) and that new_tree validates, hence has distinct
+   leaves: these are C10's c10_drop_preserves lemmas about drop_level/drop_leaf_level
+   (Proofs/TreeP.v, not part of this area).  Here `NoDup (nodes (leaf_level nt))` is a
+   hypothesis; `NoDup` of the old leaves and of the old row map are what the writer produced
+   (c09_rows_addressed_by_name). *)
+Theorem c09_truncation_partial : forall D nc0 ng lookup cells old_tree new_hier old_c2r nt nc T,
+  Forall (fun c => length (snd c) = ng) cells ->
+  NoDup (nodes (leaf_level old_tree)) -> NoDup (map fst old_c2r) -> NoDup (map snd old_c2r) ->
+  NoDup (nodes (leaf_level nt)) ->
+  truncate ng old_tree new_hier old_c2r (direct D nc0 ng lookup cells) = Ok (nt, nc, T) ->
+  let lvl := last (filter (fun l => nat_mem l new_hier) (seq 0 (length old_tree))) 0%nat in
+  (lvl = (length old_tree - 1)%nat /\ nc = old_c2r /\ T = direct D nc0 ng lookup cells) \/
+  (lvl <> (length old_tree - 1)%nat /\
+    nc = combine (nodes (leaf_level nt)) (seq 0 (length (nodes (leaf_level nt)))) /\
+    length T = length (nodes (leaf_level nt)) /\
+    forall L dst, dict_get L nc = Some dst ->
+      exists src,
+        opt_map (fun o => dict_get o old_c2r)
+                (filter (anc_is (ancestor_at old_tree lvl) L) (nodes (leaf_level old_tree))) = Some src /\
+        nth_error T dst = Some (stats_of_rows D ng (members_of lookup (map Z.of_nat src) cells))).
+Proof. exact truncation_collapse. Qed.
+Print Assumptions c09_truncation_partial.
+
+(* new_leaf_to_old_leaves: distinct new leaves; the group of L = the old leaves with ancestor L *)
+Theorem c09_truncation_groups : forall anc olds g, group_by anc olds [] = Some g ->
+  NoDup (map fst g) /\
+  forall L os, In (L, os) g <-> (os = filter (anc_is anc L) olds /\ os <> []).
+Proof. exact group_by_spec. Qed.
+Print Assumptions c09_truncation_groups.
+
+(* summing rows that hold the statistics of disjoint sets of cells = statistics of the union *)
+Theorem c09_collapse_is_additive : forall D ng lookup cells,
+  Forall (fun c => length (snd c) = ng) cells -> forall rs, NoDup rs ->
+  sum_rows ng (map (fun r => stats_of_rows D ng (members lookup r cells)) rs)
+  = stats_of_rows D ng (members_of lookup rs cells).
+Proof. exact sum_of_stats. Qed.
+Print Assumptions c09_collapse_is_additive.
+
+(* three levels; leaves 11,12 under 5 and 13 under 6; drop the leaf level *)
+Definition c09_tree : tree :=
+  [ [(1, [5; 6])]; [(5, [11; 12]); (6, [13])]; [(11, [0]); (12, [1; 2]); (13, [3])] ].
+Definition c09_cells : list cell := [(0, [8; 4]); (1, [0; 16]); (2, [9; 7]); (3, [1; 1]); (4, [5; 5])].
+Definition c09_lookup : list (Z * Z) := [(0, 0); (1, 1); (2, 1); (3, 2)].
+Example c09_truncation_nonvacuous :
+  let data := direct 8 3 2 c09_lookup c09_cells in
+  let old_c2r := [(11, 0%nat); (12, 1%nat); (13, 2%nat)] in
+  NoDup (nodes (leaf_level c09_tree)) /\
+  exists nt nc T,
+    truncate 2 c09_tree [0; 1]%nat old_c2r data = Ok (nt, nc, T) /\
+    NoDup (nodes (leaf_level nt)) /\ nc = [(5, 0%nat); (6, 1%nat)] /\
+    T = [ stats_of_rows 8 2 [[8; 4]; [0; 16]; [9; 7]]; stats_of_rows 8 2 [[1; 1]] ].
+Proof.
+  cbv zeta. split; [repeat constructor; cbn; intuition discriminate|].
+  eexists. eexists. eexists. split; [vm_compute; reflexivity|].
+  split; [repeat constructor; cbn; intuition discriminate|]. split; reflexivity.
+Qed.
